@@ -7,8 +7,8 @@ obligations) is checked by the build + audit steps of harness/check.py."""
 from .. import core
 from .. import schedcase
 
-LEAN_TARGETS = ["SqVerif.Props.C03"]
-PROPS_FILE = ["SqVerif/Props/C03Skel.lean"]
+LEAN_TARGETS = ["SqVerif.Props.C03", "SqVerif.Props.C03Bridge"]
+PROPS_FILE = ["SqVerif/Props/C03Skel.lean", "SqVerif/Props/C03Bridge.lean"]
 DRIVE_TARGETS = ["SqVerif.Drive.VNet"]
 TRUSTED = [
     "harness/simnet.py: fake reactor + Perspective Broker over in-memory pipes, one schedulable event per PB message, "
